@@ -271,6 +271,23 @@ Theorem c07_pinned_code_refuted :
 Proof. exact pinned_code_refuted. Qed.
 Print Assumptions c07_pinned_code_refuted.
 
+(* a late message for a finished run does not make the server forget, after the grace
+   period of the tree store, the tree of a run that is still going on *)
+Theorem c07_late_message_keeps_live_tree :
+  let s := run (only 71) init late_done_ops in
+  removal s = [] /\
+  lookup 1 (store (elapse s)) = Some (Have T1) /\
+  sent 3 (RRespTree 1 1 1) (r_events (step (only 71) (elapse s) (Recv 3 false false (MReqTree 1 1)))) = true /\
+  delivered (kx 1 11) (r_events (step (only 71) (elapse s) (ping 1 1 11 1))) = true /\
+  removal (run (only 71) init [LocalTree T1; ping 1 1 10 1; LocalDone (kx 1 10); ping 1 1 10 1]) = [1] /\
+  lookup 1 (store (elapse (run (only 71) init [LocalTree T1; ping 1 1 10 1; LocalDone (kx 1 10); ping 1 1 10 1]))) = None.
+Proof. exact late_message_keeps_live_tree. Qed.
+Print Assumptions c07_late_message_keeps_live_tree.
+
+Theorem c07_elapse_nothing_scheduled : forall s, removal s = [] -> store (elapse s) = store s.
+Proof. exact elapse_nothing_scheduled. Qed.
+Print Assumptions c07_elapse_nothing_scheduled.
+
 (* the checker evaluated on the implementation's observations is the property *)
 Theorem c07_check_sound : forall ops os,
   check (mkCase ops os) = [] <->
